@@ -41,6 +41,16 @@ Theorem C09_into_inner :
   log (ms (fst r)) = EDtor tk :: EDealloc (hl x) :: dbg_loads d 1 ++ log (ms s).
 Proof. intros d s h x R Hd Hs. apply into_inner_conserves; [apply reachable_inv; auto|split; auto]. Qed.
 
+(** try_unwrap is written as try_unique followed by UniqueArc::into_inner; a client taking the two steps by hand
+    (try_unique, then into_inner on the UniqueArc it got) ends in the same table and heap with the same value *)
+Theorem C09_try_unique_then_into_inner_is_try_unwrap :
+  forall d s h x, reachable s -> dead s = false -> skip s = 0%nat -> get_h s h = Some x -> hk x = KArc -> hm x = MOwned ->
+  owners (tbl s) (hl x) = 1%nat ->
+  let s1 := fst (step d s (OTryUnique h)) in
+  let r2 := step d s1 (OIntoInner h) in let r := step d s (OTryUnwrap h) in
+  tbl (fst r2) = tbl (fst r) /\ heap (ms (fst r2)) = heap (ms (fst r)) /\ hd 9 (snd r2) = hd 9 (snd r) /\ nth 1 (snd r2) 9 = nth 1 (snd r) 9.
+Proof. intros d s h x R Hd Hs. apply try_unique_then_into_inner_is_try_unwrap; [apply reachable_inv; auto|split; auto]. Qed.
+
 Theorem C09_unwrap_or_clone :
   forall d s h x pf, reachable s -> dead s = false -> skip s = 0%nat -> get_h s h = Some x -> hk x = KArc -> hm x = MOwned ->
   exists b tk, nth_error (heap (ms s)) (hl x) = Some b /\ b_cells b = [(tk, true)] /\
@@ -108,6 +118,7 @@ Print Assumptions C09_try_unwrap.
 Print Assumptions C09_try_unique.
 Print Assumptions C09_try_from_is_try_unique.
 Print Assumptions C09_into_inner.
+Print Assumptions C09_try_unique_then_into_inner_is_try_unwrap.
 Print Assumptions C09_unwrap_or_clone.
 Print Assumptions C09_moved_out_or_destroyed_exactly_once.
 Print Assumptions C09_closed_world.
